@@ -40,6 +40,11 @@ C14_Clauses(cfg, R) ==
     noPanic           |-> R.clean ]
 C14_OK(cfg, h) == All(C14_Clauses(cfg, Replay(h)))
 
+\* the answers of a quiescent store about itself agree with each other (the Consistent invariant of FlytStore,
+\* evaluated on the real store after a concurrent stress run)
+QuiesceOK(e) == /\ e.len = Len(e.keys) /\ e.len = Len(e.pairs) /\ e.hasall
+                /\ \A i \in 1..Len(e.pairs) : e.pairs[i][1] = e.keys[i]
+
 StoreHits(cfg, h) ==
   [ snapshots |-> \E i \in 1..Len(h) : h[i].ev = "readsnap",
     mutated   |-> \E i \in 1..Len(h) : h[i].ev \in {"mutsnap", "mutkeys"},
